@@ -63,9 +63,10 @@ Definition skeleton (k : skel) : cmd :=
 Definition region_ok (h : heap) (args : list ref) (flags : list bool) (observed : list nat) : bool :=
   region_closed h (inplace_region h args flags) && forallb (fun o => memb o (inplace_region h args flags)) observed.
 
-(* interrupted calls ("returns (or raises)"): the harness makes the call raise at its k-th internal function call; the
-   prediction is then the footprint of SOME interruption point of the skeleton, `run sk n` for an n <= steps sk
-   (Props C15_interrupt_enumeration_complete: larger n add nothing) *)
+(* interrupted calls ("returns (or raises)"): the harness makes the call raise at its k-th internal function call; every
+   object observed to have changed must then be changed at SOME interruption point of the skeleton, `run sk n` for an
+   n <= steps sk (Props C15_interrupt_enumeration_complete: larger n add nothing; C15_interrupted_footprints_safe: for an
+   accepted skeleton no object at all).  The ORDER of the writes inside the in-place region is deliberately not compared. *)
 Fixpoint steps (c : cmd) : nat :=
   match c with
   | Seq a b => steps a + steps b
@@ -101,7 +102,7 @@ Definition agree (c : case) : bool :=
       (* a modelled entry point: the skeleton's footprint is the prediction.  When the skeleton is safe for these
          flags the prediction lies inside the in-place region by C15_frame_inplace; a skeleton that models a
          known defect of the code as it is (not safe) predicts the writes outside it. *)
-      (if interrupted then existsb (fun f => nat_list_eqb f observed) (interrupted_footprints (skeleton s) args h)
+      (if interrupted then forallb (fun o => existsb (memb o) (interrupted_footprints (skeleton s) args h)) observed
        else nat_list_eqb (footprint (skeleton s) args h) observed) &&
       (negb (safe_with flags (skeleton s)) || region_ok h args flags observed)
   end.
